@@ -192,7 +192,7 @@ def oracle_c03(case):
     obs, v = case.obs, case.v
     if obs.verdict != "ACC" or obs.tree is None:
         return []
-    if "repeat-tag" in v.irregular or (v.irregular & {"str-ctl", "str-utf8"}):
+    if "repeat-tag" in v.irregular or (v.irregular & {"str-ctl"}):
         return []
     out = []
     if isinstance(obs.tree, tuple) and obs.tree and obs.tree[0] == "CANON-ERROR":
@@ -205,7 +205,9 @@ def oracle_c03(case):
         elif t.kind == "tag":
             src.append(("tag", t.text.decode("ascii").lower()))
         elif t.kind in ("str", "ml"):
-            src.append(("s", t.text.decode("utf-8", "replace")))
+            # octets that are not UTF-8 must not be "repaired" on the way into the tree: they decode to lone surrogates here, which no
+            # value produced by a lossy decode can equal
+            src.append(("s", t.text.decode("utf-8", "surrogateescape")))
         elif t.kind == "num":
             src.append(("n", t.text.decode("ascii")))
     src.sort()
@@ -659,7 +661,7 @@ def post_c07_removal(case, st):
         raw2 = remove_extension(case.raw, ext)
         if raw2 is None:
             continue
-        c2 = execute(case.word, raw=raw2, want_config=False)
+        c2 = execute(case.word, raw=raw2, want_config=False, layout=case.layout or "space")
         st.executions += 1
         if c2.v.kind != "INVALID" or c2.v.reason not in ("EXT_CMD", "EXT_TAG"):
             # removal produced something else first (cannot happen for a valid script, but stay sound)
@@ -697,7 +699,7 @@ def post_c07_removal(case, st):
             raw3 = remove_extension(raw2, e2) if raw2 is not None else None
             if raw3 is None:
                 continue
-            c3 = execute(case.word, raw=raw3, want_config=False)
+            c3 = execute(case.word, raw=raw3, want_config=False, layout=case.layout or "space")
             st.executions += 1
             if c3.v.kind != "INVALID" or c3.v.reason not in ("EXT_CMD", "EXT_TAG") or c3.v.detail not in (e1, e2):
                 continue
